@@ -188,4 +188,93 @@ theorem parseToken_result_is_attempt {C : Type} (verify : String → Parsed C) (
       cases h1 : (verify secret).isErr <;> cases h2 : (verify prev).isErr <;> simp [hc, h1, h2] at hok ⊢
   · simp [hp]
 
+
+/-! ### ECB blocks -/
+
+theorem chunksAux_cons_eq (n fuel : Nat) (x : UInt8) (xs : Bytes) :
+    chunksAux n (fuel + 1) (x :: xs) = (x :: xs).take n :: chunksAux n fuel ((x :: xs).drop n) := rfl
+
+theorem chunksAux_succ (n : Nat) (hn : 0 < n) : ∀ (fuel : Nat) (l : Bytes), l.length ≤ fuel →
+    chunksAux n (fuel + 1) l = chunksAux n fuel l := by
+  intro fuel
+  induction fuel with
+  | zero =>
+    intro l hl
+    have : l = [] := List.length_eq_zero_iff.mp (by omega)
+    subst this; rfl
+  | succ f ih =>
+    intro l hl
+    cases l with
+    | nil => rfl
+    | cons x xs =>
+      have hd : ((x :: xs).drop n).length ≤ f := by
+        simp only [List.length_drop, List.length_cons] at hl ⊢; omega
+      rw [chunksAux_cons_eq n (f + 1), chunksAux_cons_eq n f, ih _ hd]
+
+theorem chunksAux_stable (n : Nat) (hn : 0 < n) (l : Bytes) : ∀ (d : Nat),
+    chunksAux n (l.length + d) l = chunksAux n l.length l := by
+  intro d
+  induction d with
+  | zero => rfl
+  | succ d ih => rw [← Nat.add_assoc, chunksAux_succ n hn _ l (by omega), ih]
+
+theorem chunks_cons (n : Nat) (hn : 0 < n) (blk rest : Bytes) (hb : blk.length = n) :
+    chunks n (blk ++ rest) = blk :: chunks n rest := by
+  unfold chunks
+  have hne : (blk ++ rest).isEmpty = false := by
+    cases blk with
+    | nil => simp at hb; omega
+    | cons => rfl
+  obtain ⟨m, hm⟩ : ∃ m, (blk ++ rest).length = m + 1 := ⟨n - 1 + rest.length, by simp [hb]; omega⟩
+  rw [hm, chunksAux]
+  simp only [hne, Bool.false_eq_true, if_false]
+  have ht : (blk ++ rest).take n = blk := by rw [← hb]; exact List.take_left'  rfl
+  have hd : (blk ++ rest).drop n = rest := by rw [← hb]; exact List.drop_left' rfl
+  rw [ht, hd]
+  congr 1
+  have hm' : m = rest.length + (n - 1) := by simp [hb] at hm; omega
+  rw [hm']
+  exact chunksAux_stable n hn rest (n - 1)
+
+/-- a block cipher: length preserving on blocks, `dec` undoes `enc` -/
+def BlockCipher.Sound (C : BlockCipher) (key : Bytes) : Prop :=
+  ∀ blk : Bytes, blk.length = C.bs → (C.enc key blk).length = C.bs ∧ C.dec key (C.enc key blk) = blk
+
+theorem cryptBlocks_round_trip (C : BlockCipher) (key : Bytes) (hs : C.Sound key) (hbs : 0 < C.bs) :
+    ∀ (k : Nat) (src : Bytes), src.length = k * C.bs →
+      ((chunks C.bs src).flatMap (C.enc key)).length = k * C.bs ∧
+      (chunks C.bs ((chunks C.bs src).flatMap (C.enc key))).flatMap (C.dec key) = src := by
+  intro k
+  induction k with
+  | zero =>
+    intro src h
+    have : src = [] := List.length_eq_zero_iff.mp (by simpa using h)
+    subst this
+    simp [chunks, chunksAux]
+  | succ k ih =>
+    intro src h
+    have hsplit : src = src.take C.bs ++ src.drop C.bs := (List.take_append_drop _ _).symm
+    have hl : (src.take C.bs).length = C.bs := by
+      rw [List.length_take, h, Nat.succ_mul]; omega
+    have hr : (src.drop C.bs).length = k * C.bs := by
+      rw [List.length_drop, h, Nat.succ_mul]; omega
+    obtain ⟨e1, e2⟩ := hs _ hl
+    obtain ⟨i1, i2⟩ := ih _ hr
+    rw [hsplit, chunks_cons _ hbs _ _ hl]
+    simp only [List.flatMap_cons]
+    rw [chunks_cons _ hbs _ _ e1]
+    simp only [List.flatMap_cons, List.length_append]
+    rw [e2, i2, e1, i1, Nat.succ_mul]
+    exact ⟨by omega, rfl⟩
+
+theorem pad_length (bs : Nat) (hbs : 0 < bs) (p : Bytes) : ∃ k, (pad bs p).length = k * bs := by
+  unfold pad
+  have := Nat.mod_lt p.length hbs
+  refine ⟨p.length / bs + 1, ?_⟩
+  simp only [List.length_append, List.length_replicate]
+  have := Nat.div_add_mod p.length bs
+  rw [Nat.add_mul, Nat.one_mul, Nat.mul_comm]
+  omega
+
+
 end GoZero.C18
